@@ -533,6 +533,11 @@ Error BaseBuilder::bind(const Label& label) {
   LabelNode* node;
   ASMJIT_PROPAGATE(label_node_of(Out(node), label));
 
+  // A label can be bound only once - adding a node that is already part of the node list would corrupt the list.
+  if (ASMJIT_UNLIKELY(node->is_active())) {
+    return report_error(make_error(Error::kLabelAlreadyBound));
+  }
+
   add_node(node);
   return Error::kOk;
 }
